@@ -213,11 +213,11 @@ Lemma r_lits_loop xs : Forall lit_ok xs -> forall txt fuel, G_list1 G_lit (G_tok
 Proof.
   intros HP txt fuel HG Hf.
   eapply reads_weaken.
-  - apply (r_comma_loop m_lit G_lit lit_ok m_lits_loop pun); try assumption; try reflexivity.
+  - eapply (r_comma_loop m_lit G_lit lit_ok m_lits_loop pun); try eassumption; try reflexivity.
     + intros x t Hx Ht. now apply r_lit.
-    + intros x t Hx Ht. now apply lit_text_hd.
+    + intros x t Hx Ht. exact (lit_text_hd x t Hx Ht).
     + intros l. repeat split; discriminate.
-  - intros l (Hp & Hc). repeat split; try assumption. now apply pun_nws.
+  - intros l (Hp & Hc). split; [exact Hp | split; [exact Hc | now apply pun_nws]].
 Qed.
 
 Lemma r_lits xs txt : Forall lit_ok xs -> G_list0 G_lit (G_tok t_comma) xs txt -> reads m_lits txt xs [] ok_lits.
@@ -258,4 +258,165 @@ Proof.
       destruct Hh as (c0 & q & -> & Hcl). unfold nws. simpl. unfold is_lower, is_ws in *. lia. }
     destruct (reads_tok t_colon w false Hw (t2 ++ tail) ln ac Hnw) as [ln1 E1]. rewrite <- !app_assoc in E1. rewrite E1.
     destruct (r_lits c t2 HP H2 tail ln1 ([] ++ ac) (conj Hp Hc)) as [ln2 E2]. rewrite E2. eexists. reflexivity.
+Qed.
+
+(* ---------- head / project atoms:  a1 sep a2 sep ...  with separator characters ---------- *)
+Definition sep_ok (seps : list Z) : Prop :=
+  Forall (fun c => c <> 0 /\ c <> 13 /\ is_ws c = false /\ is_alnum c = false /\ c <> 95) seps.
+Definition ok_atoms (seps : list Z) (tail : list Z) : Prop := pun tail /\ mem (hd 0 tail) seps = false.
+
+Lemma mem_In c l : In c l -> mem c l = true.
+Proof. intros H. unfold mem. apply existsb_exists. exists c. split; [exact H | apply Z.eqb_refl]. Qed.
+
+Lemma G_lit_atom x t : atom_ok x -> G_atom x t -> G_lit x t /\ lit_ok x.
+Proof.
+  unfold atom_ok, G_lit, lit_ok, atom_ok. intros Hx Ht. destruct (Z.ltb_spec x 0); [lia|]. split; [exact Ht|]. rewrite Z.abs_eq; lia.
+Qed.
+
+Lemma r_atoms_loop seps xs : sep_ok seps -> Forall atom_ok xs -> forall txt fuel,
+  G_list1 G_atom (G_sep seps) xs txt -> (length xs <= fuel)%nat -> reads (m_atoms_loop fuel seps) txt xs [] (ok_atoms seps).
+Proof.
+  intros Hs. induction xs as [|x r IH]; intros HP txt fuel HG Hf; [contradiction|].
+  inversion HP as [|? ? Hx Hr]; subst. destruct fuel as [|fu]; [simpl in Hf; lia|].
+  assert (Hpos : 0 <? x = true) by (unfold atom_ok in Hx; lia).
+  intros tail ln ac (Hp & Hm). cbn [m_atoms_loop]. unfold bind. destruct r as [|y r'].
+  - destruct (G_lit_atom x txt Hx HG) as [HL HLo].
+    destruct (r_lit x txt HLo HL tail ln ac Hp) as [ln1 E1]. rewrite E1. unfold require. rewrite Hpos.
+    rewrite peek_false. rewrite Hm, andb_false_r. eexists. reflexivity.
+  - apply G_list1_cons in HG. destruct HG as (t1 & ts & t2 & H1 & (c & w & Hc & Hw & ->) & H2 & ->).
+    pose proof Hs as Hs2. unfold sep_ok in Hs2. rewrite Forall_forall in Hs2. destruct (Hs2 c Hc) as (C0 & C13 & Cws & Cal & C95).
+    destruct (G_lit_atom x t1 Hx H1) as [HL HLo]. rewrite <- !app_assoc.
+    destruct (r_lit x t1 HLo HL ((c :: w) ++ t2 ++ tail) ln ac) as [ln1 E1].
+    { unfold pun. simpl. auto. }
+    rewrite E1. unfold require. rewrite Hpos. rewrite peek_false. cbn [app hd].
+    destruct (Z.eqb_spec c 0); [contradiction|]. rewrite (mem_In c seps Hc). cbn [negb andb].
+    destruct (get_plain c (w ++ t2 ++ tail) ln1 ac C13) as [ln2 E2]. rewrite E2.
+    assert (Hy : exists c0 q, t2 = c0 :: q /\ is_lower c0 = true).
+    { destruct r' as [|z r'']; [destruct (atom_text_hd y t2 H2) as (c0 & q & E & Hc0 & _); [unfold atom_ok in Hr; inversion Hr; subst; unfold atom_ok in *; lia|]; exists c0, q; auto|].
+      apply G_list1_cons in H2. destruct H2 as (u1 & us & u2 & Hu & _ & _ & ->).
+      destruct (atom_text_hd y u1 Hu) as (c0 & q & -> & Hc0 & _); [inversion Hr; subst; unfold atom_ok in *; lia|].
+      exists c0. eexists. split; [reflexivity | exact Hc0]. }
+    destruct Hy as (c0 & q & Ey & Hcl).
+    assert (Hnw : nws (t2 ++ tail)) by (rewrite Ey; unfold nws; simpl; unfold is_lower, is_ws in *; lia).
+    destruct (skipws_run w (t2 ++ tail) ln2 ac Hw Hnw) as [ln3 E3]. rewrite E3.
+    destruct (IH Hr t2 fu H2 ltac:(simpl in Hf |- *; lia) tail ln3 ac (conj Hp Hm)) as [ln4 E4].
+    rewrite E4. eexists. reflexivity.
+Qed.
+
+Lemma r_atoms seps xs txt : sep_ok seps -> Forall atom_ok xs -> G_list0 G_atom (G_sep seps) xs txt ->
+  reads (m_atoms seps) txt xs [] (ok_atoms seps).
+Proof.
+  intros Hs HP HG tail ln ac (Hp & Hm). unfold m_atoms, bind at 1. destruct xs as [|x r].
+  - simpl in HG. subst txt. cbn [app]. rewrite peek_true_nws by now apply pun_nws.
+    destruct Hp as (_ & Ha & _). assert (is_lower (hd 0 tail) = false) as ->.
+    { unfold is_alnum in Ha. destruct (is_lower (hd 0 tail)); [discriminate Ha | reflexivity]. }
+    eexists. reflexivity.
+  - cbn [G_list0] in HG.
+    assert (Hh : exists c q, txt = c :: q /\ is_lower c = true).
+    { assert (Hx1 : 1 <= x) by (inversion HP; subst; unfold atom_ok in *; lia).
+      destruct r as [|y r']; [destruct (atom_text_hd x txt HG Hx1) as (c & q & E & Hc & _); exists c, q; auto|].
+      apply G_list1_cons in HG. destruct HG as (u1 & us & u2 & Hu & _ & _ & ->).
+      destruct (atom_text_hd x u1 Hu Hx1) as (c & q & -> & Hc2 & _). exists c. eexists. split; [reflexivity | exact Hc2]. }
+    destruct Hh as (c & q & E & Hcl).
+    rewrite peek_true_nws by (rewrite E; unfold nws; simpl; unfold is_lower, is_ws in *; lia).
+    assert (is_lower (hd 0 (txt ++ tail)) = true) as -> by (rewrite E; exact Hcl).
+    apply (reads_remaining (fun n => m_atoms_loop n seps) txt (x :: r) [] (ok_atoms seps)); [|split; assumption].
+    intros n Hn. apply r_atoms_loop; try assumption.
+    pose proof (G_list1_len G_atom (G_sep seps) G_atom_ne (x :: r) txt HG). lia.
+Qed.
+
+(* the same list with "," as a token (G_tok) is a G_sep list *)
+Lemma G_tok_sep c t : G_tok [c] t -> G_sep [c] t.
+Proof. intros (w & Hw & ->). exists c, w. split; [now left | split; [exact Hw | reflexivity]]. Qed.
+Lemma G_list1_sep_mono {A} (G : A -> list Z -> Prop) (S S' : list Z -> Prop) : (forall t, S t -> S' t) ->
+  forall xs txt, G_list1 G S xs txt -> G_list1 G S' xs txt.
+Proof.
+  intros HS. induction xs as [|x r IH]; intros txt H; [exact H|]. destruct r as [|y r']; [exact H|].
+  apply G_list1_cons in H. apply G_list1_cons. destruct H as (t1 & ts & t2 & H1 & H2 & H3 & ->).
+  exists t1, ts, t2. repeat split; auto.
+Qed.
+
+(* ---------- aggregates ---------- *)
+Definition m_wl : M (Z * Z) := l <- m_lit ;; e <- mtok t_eq false ;; w <- (if e then m_int else ret 1) ;; ret (l, w).
+Definition ok_wl (tail : list Z) : Prop := pun tail /\ hd 0 tail <> 61.
+
+Lemma print_Z_nws v l : nws (print_Z v ++ l).
+Proof.
+  unfold print_Z, nws. destruct (Z.ltb_spec v 0); [reflexivity|].
+  destruct (print_nat_hd v H) as (d & ds & -> & Hd). simpl. unfold is_digit, is_ws in *. lia.
+Qed.
+
+Lemma r_wlit x t : lit_ok (fst x) -> in_int (snd x) = true -> G_wlit x t -> reads m_wl t x [] ok_wl.
+Proof.
+  destruct x as [l w]. cbn [fst snd]. intros Hl Hw (t1 & t2 & H1 & -> & H2) tail ln ac (Hp & He). unfold m_wl, bind.
+  cbn [fst snd] in *.
+  destruct H2 as [[Hone ->] | (te & ti & (w1 & Hw1 & ->) & Hi & ->)].
+  - subst w. rewrite app_nil_r. destruct (r_lit l t1 Hl H1 tail ln ac Hp) as [ln1 E1]. rewrite E1.
+    change t_eq with [61]. rewrite mtok_absent by (auto; discriminate). eexists. reflexivity.
+  - rewrite <- !app_assoc. change t_eq with [61] in *.
+    destruct (r_lit l t1 Hl H1 ([61] ++ w1 ++ ti ++ tail) ln ac) as [ln1 E1]; [unfold pun; simpl; repeat split; discriminate|].
+    rewrite E1. destruct Hi as (w2 & Hw2 & Ei). 
+    destruct (reads_tok [61] w1 false Hw1 (ti ++ tail) ln1 ([] ++ ac)) as [ln2 E2]; [rewrite Ei, <- app_assoc; apply print_Z_nws|].
+    rewrite <- !app_assoc in E2. rewrite E2.
+    destruct (r_int w ti Hw (ex_intro _ w2 (conj Hw2 Ei)) tail ln2 ([] ++ [] ++ ac) Hp) as [ln3 E3]. rewrite E3.
+    eexists. reflexivity.
+Qed.
+
+Lemma G_wlit_hd x t : lit_ok (fst x) -> G_wlit x t -> exists c r, t = c :: r /\ is_lower c = true.
+Proof.
+  intros Hl (t1 & t2 & H1 & -> & _). destruct (lit_text_hd (fst x) t1 Hl H1) as (c & r & -> & Hc). exists c. eexists. split; [reflexivity | exact Hc].
+Qed.
+Lemma G_wlit_ne x t : lit_ok (fst x) -> G_wlit x t -> t <> [].
+Proof. intros Hl H. destruct (G_wlit_hd x t Hl H) as (c & r & -> & _). discriminate. Qed.
+
+Lemma m_agg_loop_unfold f s : m_agg_loop (S f) s =
+  (x <- m_wl ;; b <- mtok t_comma false ;; if b then (r <- m_agg_loop f ;; ret (x :: r)) else ret [x]) s.
+Proof.
+  cbn [m_agg_loop]. unfold m_wl, bind. destruct (m_lit s) as [l s1|]; [|reflexivity].
+  destruct (mtok t_eq false s1) as [e s2|]; [|reflexivity].
+  destruct ((if e then m_int else ret 1) s2) as [w s3|]; reflexivity.
+Qed.
+
+Definition wl_ok1 (x : Z * Z) : Prop := lit_ok (fst x) /\ in_int (snd x) = true.
+
+Lemma r_agg l t : wlits_ok l -> G_agg l t -> reads m_agg t (drop0 l) [] nws.
+Proof.
+  intros Hl (t1 & t2 & t3 & (w1 & Hw1 & ->) & H2 & (w3 & Hw3 & ->) & ->) tail ln ac Ht. unfold m_agg, bind.
+  rewrite <- !app_assoc. change t_lbrace with [123] in *. change t_rbrace with [125] in *.
+  destruct l as [|x r].
+  - simpl in H2. subst t2. cbn [app].
+    destruct (reads_tok [123] w1 true Hw1 (125 :: w3 ++ tail) ln ac ltac:(reflexivity)) as [ln1 E1]. rewrite <- !app_assoc in E1. cbn [app] in E1. rewrite E1.
+    destruct (reads_tok [125] w3 false Hw3 tail ln1 ([] ++ ac) Ht) as [ln2 E2]. rewrite <- !app_assoc in E2. cbn [app] in E2. rewrite E2.
+    eexists. reflexivity.
+  - cbn [G_list0] in H2.
+    assert (Hh : exists c q, t2 = c :: q /\ is_lower c = true).
+    { unfold wlits_ok in Hl. destruct r as [|y r']; [exact (G_wlit_hd x t2 (proj1 (Forall_inv Hl)) H2)|].
+      apply G_list1_cons in H2. destruct H2 as (u1 & us & u2 & Hu & _ & _ & ->).
+      destruct (G_wlit_hd x u1 (proj1 (Forall_inv Hl)) Hu) as (c & q & -> & Hc2). exists c. eexists. split; [reflexivity | exact Hc2]. }
+    destruct Hh as (c & q & E & Hcl).
+    assert (Hnw : nws (t2 ++ [125] ++ w3 ++ tail)) by (rewrite E; unfold nws; simpl; unfold is_lower, is_ws in *; lia).
+    destruct (reads_tok [123] w1 true Hw1 (t2 ++ [125] ++ w3 ++ tail) ln ac Hnw) as [ln1 E1]. rewrite <- !app_assoc in E1. rewrite E1.
+    rewrite mtok_absent; [| rewrite E; simpl; unfold is_lower in Hcl; lia | discriminate].
+    unfold remaining. cbn [str rest].
+    assert (HL : reads (m_agg_loop (S (length (t2 ++ [125] ++ w3 ++ tail)))) t2 (x :: r) [] (okT ok_wl)).
+    { apply (r_comma_loop m_wl G_wlit wl_ok1 m_agg_loop ok_wl).
+      - apply m_agg_loop_unfold.
+      - intros y ty (Hy1 & Hy2) Hty. now apply r_wlit.
+      - intros y ty (Hy1 & _) Hty. exact (G_wlit_hd y ty Hy1 Hty).
+      - intros l0. split; [unfold pun; simpl; repeat split; discriminate | discriminate].
+      - exact Hl.
+      - exact H2.
+      - pose proof (G_list1_len G_wlit (G_tok [44]) ) as HLen.
+        assert (Hlen : (length (x :: r) <= length t2)%nat).
+        { clear - Hl H2. revert t2 H2. induction (x :: r) as [|a l0 IH]; intros t2 H2; [contradiction|].
+          inversion Hl as [|? ? Ha Hl']; subst. destruct l0 as [|b l1].
+          - pose proof (G_wlit_ne a t2 (proj1 Ha) H2). destruct t2; [congruence | simpl; lia].
+          - apply G_list1_cons in H2. destruct H2 as (u1 & us & u2 & Hu & _ & H3 & ->).
+            specialize (IH Hl' u2 H3). pose proof (G_wlit_ne a u1 (proj1 Ha) Hu). rewrite !app_length. destruct u1; [congruence|]. simpl in *. lia. }
+        rewrite app_length. lia. }
+    destruct (HL ([125] ++ w3 ++ tail) ln1 ([] ++ ac)) as [ln2 E2].
+    { split; [split; [unfold pun; simpl; repeat split; discriminate | discriminate] | split; [discriminate | reflexivity]]. }
+    rewrite E2.
+    destruct (reads_tok [125] w3 true Hw3 tail ln2 ([] ++ [] ++ ac) Ht) as [ln3 E3]. rewrite <- !app_assoc in E3. rewrite E3.
+    eexists. reflexivity.
 Qed.
